@@ -13,13 +13,15 @@ import (
 func init() {
 	register(&Prop{
 		ID: "C18", Level: "exploration",
-		Rule: "the real per-key version list (core.Transaction / file: PushBack, LastBefore, Latest, IterateBeforeSeq+PopFront as the collector uses them, PopBack) against a linear-scan specification on a plain slice. Exhaustive part: every subset of {1..12} as the version list (4096 lists) x every snapshot point 0..13 x every collection horizon 0..13 followed by every snapshot point again; seeded part: interleavings of append / pop-front / pop-back / collect / probe on lists of up to 5000 versions over several keys. evaluations = (list, point) and (list, horizon, point) comparisons; distinct_nontrivial = distinct (list, horizon) pairs in which the collection removed at least one version plus distinct lists probed",
+		Rule:        "the real per-key version list (core.Transaction / file: PushBack, LastBefore, Latest, IterateBeforeSeq+PopFront as the collector uses them, PopBack) against a linear-scan specification on a plain slice. Exhaustive part: every subset of {1..12} as the version list (4096 lists) x every snapshot point 0..13 x every collection horizon 0..13 followed by every snapshot point again; seeded part: interleavings of append / pop-front / pop-back / collect / probe on lists of up to 5000 versions over several keys. evaluations = (list, point) and (list, horizon, point) comparisons; distinct_nontrivial = distinct (list, horizon) pairs in which the collection removed at least one version plus distinct lists probed",
 		Assumptions: []string{"linear-scan specification"},
 		Roles: map[string]Role{
 			"exhaustive": {N: func(t string) int { return 16 }, Case: c18Exhaustive},
 			"seeded":     {N: func(t string) int { return tierN(t, 200, 2000) }, Case: c18Seeded},
 		},
-		Post: func(r *rt.Run, tier string) { r.Extra("exhaustive_part", "all 4096 subsets of {1..12} x points 0..13 x horizons 0..13") },
+		Post: func(r *rt.Run, tier string) {
+			r.Extra("exhaustive_part", "all 4096 subsets of {1..12} x points 0..13 x horizons 0..13")
+		},
 	})
 }
 
